@@ -67,12 +67,15 @@ def generate(rng, tier, index):
     for a, ax in enumerate("xyz"):
         t = sum(faces[f"{d}_{ax}"].get("thickness", 0) for d in ("min", "max"))
         shape.append(t + int(rng.integers(3, 7)))
-    tier_e = specgen.choice(rng, ["iso", "iso", "diag", "diag", "full"])
-    if tier_e == "full":
-        f32 = False  # x64-enabled full-tensor kernels promote float32 fields; not part of this property
+    tier_e = specgen.choice(rng, ["iso", "iso", "iso", "iso", "diag", "diag", "full", "full"])
     m = {"mode": "random", "seed": int(rng.integers(0, 2**31)), "eps_tier": tier_e}
     if rng.uniform() < 0.5:
-        m["mu_tier"] = specgen.choice(rng, ["iso", "diag"])
+        m["mu_tier"] = specgen.choice(rng, ["iso", "diag", "full"])
+    if tier_e == "full" or m.get("mu_tier") == "full":
+        f32 = False  # x64-enabled full-tensor kernels promote float32 fields; not part of this property
+        # full tensors: the cells next to a layer are covered by a known finding whose error spreads one cell per reverse
+        # step; a longer interior keeps a region that it cannot have reached (monitor *_far_from_layers)
+        shape = [n + int(rng.integers(2, 5)) for n in shape]
     grid = specgen.rand_grid(rng, shape, 0.35)
     if f32:  # with x64 enabled the float64 metric factors of a non-uniform grid promote float32 fields; keep float32 on uniform grids
         grid = {"kind": "uniform", "spacing": specgen.SPACING}
@@ -96,6 +99,19 @@ def generate(rng, tier, index):
         else:
             s = specgen.rand_plane_source(rng, f"s{i}", shape, inner, T, kind=k)
         srcs.append(s if s is not None else specgen.rand_dipole(rng, f"s{i}", shape, inner, T))
+    if iso and (not srcs or all(s_["kind"] == "dipole" for s_ in srcs)) and rng.uniform() < 0.7:
+        # isotropic scenes are the only ones that admit plane-type (TFSF) sources: give most of them one, half of those with
+        # the default always-on switch (the library undoes always-on and switched sources through different code paths)
+        k = specgen.choice(rng, ["uniform_plane", "gaussian_plane", "mode", "tfsf_region"])
+        s_ = specgen.rand_tfsf_region(rng, "sp", shape, inner, T, faces=faces) if k == "tfsf_region" else specgen.rand_mode_source(rng, "sp", shape, inner, T) if k == "mode" else specgen.rand_plane_source(rng, "sp", shape, inner, T, kind=k)
+        for ax_try in range(3):  # small interiors: fall back to a uniform plane source along any axis that has room
+            if s_ is None:
+                s_ = specgen.rand_plane_source(rng, "sp", shape, inner, T, kind="uniform_plane", axis=ax_try)
+        if s_ is not None:
+            srcs.append(s_)
+    for s_ in srcs:
+        if s_["kind"] != "dipole" and rng.uniform() < 0.5:
+            s_.pop("switch", None)
     spec["sources"] = srcs
     spec["init_seed"] = int(rng.integers(0, 2**31))
     # one scene in three with sources starts from zero fields, so that a defect in how a source is undone in the reverse
@@ -163,6 +179,32 @@ def execute(spec):
     scale = max(max(float(np.max(np.abs(e))), float(np.max(np.abs(h)))) for e, h in traj)
     nontrivial = bool(np.max(np.abs(traj[-1][0] * mask)) > 0)
 
+    full_tensor = spec["materials"].get("eps_tier") == "full" or spec["materials"].get("mu_tier") == "full"
+    dist = np.full(tuple(spec["shape"]), 10**6)
+    for face, f_ in spec["faces"].items():
+        if f_["kind"] != "pml":
+            continue
+        a_ = "xyz".index(face[-1])
+        idx = np.arange(spec["shape"][a_])
+        d1 = (idx - f_["thickness"]) if face.startswith("min") else (spec["shape"][a_] - f_["thickness"] - 1 - idx)
+        sh_ = [1, 1, 1]
+        sh_[a_] = -1
+        dist = np.minimum(dist, np.broadcast_to(d1.reshape(sh_), dist.shape))
+
+    def cmp_far(state_t, t, steps_back, monitor, extra):
+        """Full-tensor scenes: cells the known near-layer error (2 cells, spreading one cell per reverse step) cannot have reached."""
+        far = (mask[0] & (dist >= 2 + steps_back + 1))[None]
+        if not full_tensor or not far.any():
+            return True
+        f = dr.fields_np(state_t)
+        w = max(dr.rel_diff(traj[t][0] * far, f["E"] * far, scale), dr.rel_diff(traj[t][1] * far, f["H"] * far, scale))
+        resid[monitor] = max(resid.get(monitor, 0.0), w if np.isfinite(w) else 1e300)
+        stats["far_cells_compared"] = stats.get("far_cells_compared", 0) + int(far.sum())
+        if not (w <= tol):
+            viol.append({"monitor": monitor, "step": t, "metric": "rel_diff", "value": w, "tolerance": tol, "steps_back": steps_back, **extra})
+            return False
+        return True
+
     def cmp(state_t, t, monitor, extra):
         f = dr.fields_np(state_t)
         dE = dr.rel_diff(traj[t][0] * mask, f["E"] * mask, scale)
@@ -186,7 +228,8 @@ def execute(spec):
             for t in range(T - 1, -1, -1):
                 s = st.bwd(s, 1, reset_fields=rf, record_detectors=False)
                 stats["sim_steps"] += 1
-                if not cmp(s, t, "reverse_interior_mismatch", {"sweep": op["op"], "reset_fields": rf}):
+                ok_far = cmp_far(s, t, T - t, "reverse_mismatch_far_from_layers", {"sweep": op["op"], "reset_fields": rf})
+                if not cmp(s, t, "reverse_interior_mismatch", {"sweep": op["op"], "reset_fields": rf}) or not ok_far:
                     break
             stats["fault_log_replay"] = stats.get("fault_log_replay", 0) + 1
         elif op["op"] == "full_backward":
@@ -201,6 +244,7 @@ def execute(spec):
     stats["sim_time_fs"] = stats["sim_steps"] * scn.dt * 1e15
     m = spec["materials"]
     stats["probe_full_tensor"] = int(m.get("eps_tier") == "full")
+    stats["probe_full_tensor_mu"] = int(m.get("mu_tier") == "full")
     stats["probe_zero_initial_fields"] = int(spec.get("init_scale", 1.0) == 0.0)
     for s_ in spec.get("sources", []):
         stats["probe_source_" + s_["kind"]] = stats.get("probe_source_" + s_["kind"], 0) + 1
